@@ -283,30 +283,40 @@ func (s *v4Server) rmLeaseByIndex(i int) {
 	log.Debug("dhcpv4: removed lease %s (%s)", l.IP, l.HWAddr)
 }
 
-// Remove a dynamic lease with the same properties
-// Return error if a static lease is found
+// rmDynamicLease removes all dynamic leases that have the same hardware address
+// or the same IP address as lease, and takes the hostname of lease away from
+// any other dynamic lease.  It returns an error, and changes nothing, if a
+// static lease with the same hardware or IP address exists.
 //
 // TODO(s.chzhen):  Refactor the code.
 func (s *v4Server) rmDynamicLease(lease *dhcpsvc.Lease) (err error) {
-	for i, l := range s.leases {
-		isStatic := l.IsStatic
+	matches := func(l *dhcpsvc.Lease) (ok bool) {
+		return bytes.Equal(l.HWAddr, lease.HWAddr) || l.IP == lease.IP
+	}
 
-		if bytes.Equal(l.HWAddr, lease.HWAddr) || l.IP == lease.IP {
-			if isStatic {
-				return errors.Error("static lease already exists")
-			}
+	// Look for the conflicting static leases first, so that nothing is removed
+	// when the error is returned.
+	for _, l := range s.leases {
+		if l.IsStatic && matches(l) {
+			return errors.Error("static lease already exists")
+		}
+	}
 
+	for i := 0; i < len(s.leases); {
+		l := s.leases[i]
+		if matches(l) {
+			// Don't advance, since the next lease is at index i now.
 			s.rmLeaseByIndex(i)
-			if i == len(s.leases) {
-				break
-			}
 
-			l = s.leases[i]
+			continue
 		}
 
-		if !isStatic && l.Hostname == lease.Hostname {
+		if !l.IsStatic && l.Hostname != "" && l.Hostname == lease.Hostname {
+			delete(s.hostsIndex, l.Hostname)
 			l.Hostname = ""
 		}
+
+		i++
 	}
 
 	return nil
